@@ -32,6 +32,10 @@ CL_CLOSED = int(CL.State.CLOSED)
 CL_OPEN = int(CL.State.OPEN)
 CL_WAIT_DISCONNECT = int(CL.State.WAIT_DISCONNECT)
 
+# The table of pending LE credit-based connection requests: one table keyed by identifier (the snapshot) or one per
+# connection (after notes/C09/fix-5.diff).  The class model follows the declared type of the attribute.
+PER_CONN_REQUESTS = str(l2cap.ChannelManager.__annotations__.get('le_coc_requests', '')).replace(' ', '').startswith('dict[int,dict[')
+
 # ---------------------------------------------------------------------------
 # futures (state only)
 # ---------------------------------------------------------------------------
@@ -89,9 +93,12 @@ def chan_emit(ghost, event, *args):
 
 
 def mgr_send_control_frame(ghost, connection, cid, frame):
-    """recording stub: counts the frames and remembers the outcome of the last connection response"""
+    """recording stub: counts the frames and remembers the outcome of the last connection response; for an LE connection
+    request it remembers on which connection the request with this identifier went out (ghost.req_owner)"""
     ghost.frames = ghost.frames + 1
     ghost.last_handle = connection.handle
+    if isinstance(frame, l2cap.L2CAP_LE_Credit_Based_Connection_Request):
+        ghost.req_owner[frame.identifier] = connection.handle
     if isinstance(frame, l2cap.L2CAP_LE_Credit_Based_Connection_Response):
         ghost.le_result = frame.result
         ghost.le_dcid = frame.destination_cid
@@ -134,6 +141,7 @@ model(
         identifiers=RefT('idicts'),
         pending_credit_based_connections=RefT('podicts'),
         le_coc_servers=RefT('lsdicts'),
+        le_coc_requests=RefT('rodicts' if PER_CONN_REQUESTS else 'rdicts'),
     ),
     methods={'send_control_frame': Callback('send_control_frame', effect=mgr_send_control_frame)},
 )
@@ -143,6 +151,11 @@ def srv_on_connection(ghost, channel):
 
 
 model('ghost:LeServer#c09', fields=dict(mtu=IntRange(23, 65535), mps=IntRange(23, 65533), max_credits=IntRange(0, 65535)), methods={'on_connection': Callback('on_connection', effect=srv_on_connection)})
+
+model(
+    'bumble.l2cap:L2CAP_LE_Credit_Based_Connection_Request#c09p',
+    fields=dict(identifier=IntRange(0, 255), le_psm=Int, source_cid=Int, mtu=Int, mps=Int, initial_credits=Int),
+)
 
 HEAP = dict(
     conns=PoolOf('ghost:Conn#c09'),
@@ -157,6 +170,11 @@ HEAP = dict(
     mgrs=PoolOf('bumble.l2cap:ChannelManager#c09'),
     leservers=PoolOf('ghost:LeServer#c09'),
     lsdicts=PoolOf(dict_of=RefT('leservers')),
+    reqs=PoolOf('bumble.l2cap:L2CAP_LE_Credit_Based_Connection_Request#c09p'),
+    rdicts=PoolOf(dict_of=RefT('reqs')),
+    rodicts=PoolOf(dict_of=RefT('rdicts')),
+    hdicts=PoolOf(dict_of=IntRange(0, 0xFFFF)),
+    req_owner=RefT('hdicts'),
     emitted=Int,
     frames=Int,
     last_handle=Int,
@@ -227,6 +245,20 @@ def registered_or_absent(mgr, channel):
 
 def inner(tbl, h):
     return tbl[h] if h in tbl else None
+
+
+def pending_request(mgr, ghost, h, k):
+    """the LE connection request with identifier k that is pending on connection h, or None"""
+    if PER_CONN_REQUESTS:
+        return entry(mgr.le_coc_requests, h, k)
+    return mgr.le_coc_requests[k] if (k in mgr.le_coc_requests and k in ghost.req_owner and ghost.req_owner[k] == h) else None
+
+
+def wf_requests(mgr, ghost):
+    """(one table for all connections: the ghost map knows which connection sent each pending request)"""
+    if PER_CONN_REQUESTS:
+        return [forall_items(mgr.le_coc_requests, lambda h, d: forall_items(mgr.le_coc_requests, lambda h2, d2: implies(same(d, d2), h == h2)))]
+    return [forall_items(mgr.le_coc_requests, lambda k, r: k in ghost.req_owner)]
 
 
 # ---------------------------------------------------------------------------
